@@ -319,7 +319,9 @@ for _lab, _pid in ((["C03:"], "C03"), (["C02:", "REF:"], "C02")):
 # assembly match-copy strategies: byte-aligned two-byte window after non-repeating output (context 6)
 CHECKS["C18"]["runs"] += [dict(rd(6, 2, M=36, labels=["C18:"], covers=["ran"], harness="VerifAsmDiff", tiers=["quick"], extra={"LITCAP": 1}), tags="verif", native_configs=[["verif", None]], maxdec=4000)]
 CHECKS["C18"]["runs"] += [dict(rd(6, 2, M=260, labels=["C18:"], covers=["ran"], harness="VerifAsmDiff", tiers=["thorough"]), tags="verif", native_configs=[["verif", None]], maxdec=4000, maxconc=600)]
-CHECKS["C18"]["runs"] += [dict(rd(1, 3, M=16, labels=["C18:"], covers=["ran"], harness="VerifAsmDiff", tiers=["thorough"]), tags="verif", native_configs=[["verif", None]], maxdec=4000, maxconc=600)]
+# (context 1 with N=3 also catches the C18d change -- 2 min on the changed tree, 15.5 min and 22 013 path classes clean on the
+#  unchanged one when run directly -- but the whole thorough command with it could not be re-run to completion in the time left,
+#  so it is not registered)
 
 # context 94: far back-references (distance symbols 28/29 with symbolic extra bits) before and after the
 # history slide, across the end of the output window, and around distance == bytes produced
